@@ -143,7 +143,7 @@ class EvalBounded(BoundedCheck):
         c = fsic.core.VectorContainer(span)
         data = {}
         helper_var = rnd.choice(['exp', 'lag', None])
-        names = ['X', 'Y', 'Z'] + ([helper_var] if helper_var else [])
+        names = ['X', 'Y', 'Z', '_u'] + ([helper_var] if helper_var else [])
         for nm in names:
             data[nm] = np.array([rnd.choice([0.5, 1.0, 1.5, 2.0, 3.0]) + rnd.random() for _ in range(n)])
             c.add_variable(nm, data[nm].copy())
@@ -154,7 +154,7 @@ class EvalBounded(BoundedCheck):
             return '`' + str(labels[i]) + '`'
 
         def pos_expr():
-            v = rnd.choice(['X', 'Y', 'Z'])
+            v = rnd.choice(['X', 'Y', 'Z', '_u'])
             r = rnd.random()
             if r < 0.25:
                 return v, data[v], 'vec'
